@@ -51,7 +51,7 @@ WinDist(o, s, mss) ==
   IF s.k = "any" THEN 0
   ELSE IF o.k = s.k THEN (IF o.n = s.n THEN 0 ELSE PenWin)
   ELSE IF o.k = "value" /\ s.k = "mss"
-       THEN (IF mss > 0 /\ (o.n \div mss) = s.n THEN 0 ELSE PenWin)
+       THEN (IF mss > 0 /\ o.n = s.n * mss THEN 0 ELSE PenWin)          \* exactly that multiple
        ELSE REJ
 
 WinInstance(o, s) == s.k = "any" \/ o = s
@@ -60,7 +60,7 @@ WinInstance(o, s) == s.k = "any" \/ o = s
 \* cannot be judged without the link MTU and are left open)
 WinZeroAllowed(o, s, mss) ==
   \/ WinInstance(o, s)
-  \/ o.k = "value" /\ s.k = "mss" /\ mss > 0 /\ (o.n \div mss) = s.n
+  \/ o.k = "value" /\ s.k = "mss" /\ mss > 0 /\ o.n = s.n * mss
   \/ o.k = "value" /\ s.k = "mod" /\ s.n > 0 /\ (o.n % s.n) = 0
   \/ o.k = "mss" /\ s.k = "value" /\ mss > 0 /\ o.n * mss = s.n
   \/ o.k = "mss" /\ s.k = "mod" /\ mss > 0 /\ s.n > 0 /\ ((o.n * mss) % s.n) = 0
